@@ -1,0 +1,22 @@
+//go:build verif
+
+package filesystem
+
+// Verification hooks of work package x14log (add-only, compiled only with -tags verif):
+// unexported names compared by describeV1 / getContextFromFilename and the history-name test.
+
+// VerifX14V1Consts returns the unexported file-name constants of keystore v1.
+func VerifX14V1Consts() map[string]string {
+	return map[string]string{
+		"poisonPrivateKey":        poisonPrivateKey,
+		"poisonPublicKey":         poisonPublicKey,
+		"poisonSymmetricKey":      poisonSymmetricKey,
+		"legacyWebConfigKey":      legacyWebConfigKey,
+		"poisonKeyFilenamePublic": poisonKeyFilenamePublic,
+		"historyDirSuffix":        historyDirSuffix,
+		"poisonKeyFilenameSym":    getSymmetricKeyName(PoisonKeyFilename),
+	}
+}
+
+// VerifX14IsHistoricalFilename is isHistoricalFilename.
+func VerifX14IsHistoricalFilename(name string) bool { return isHistoricalFilename(name) }
